@@ -17,6 +17,11 @@
 //	   scanner / loader error `ERR code pos` — the code must answer the same; texts the mutation moved outside
 //	   the text-level fragment (a rule, a type shortcut, a key shortcut → model `UNSUPPORTED`) are only counted.
 //	   Property level: whenever the code returns an example for a mutant, it must be well-formed JSON.
+//	T  (x/c15text/atree.go) ANNOTATED trees of the generator of `c13-tree`, printed with their layout in the grammar of
+//	   the Lean type `AT.ATree` (driver `atreeex`): `ATree.compact` = compact value computed in Go = model
+//	   (`Loader.exampleTextR`) = real Example() whenever real Check() accepts; real Validate(Example()) == nil and
+//	   `E2E.validateText text [] Example()` = ACC on the model — the tie of `C15_annotated_text_roundtrip_*` and of the
+//	   statement `C15_annotated_self_valid_full`.
 //	E  three fixed texts with a bare `@` as object key (`{@: 1}`; found by stream D of this command: the scanner
 //	   accepts the empty type name, Example() used to re-emit the token unquoted, `{@:1}`): since the fix in /repo the
 //	   loader rejects it with error 701 at the `@`, in model and code.
@@ -416,7 +421,7 @@ func min(a, b int) int {
 }
 
 func Run(args []string) {
-	rep := vh.NewReport(command, "random JSON trees (depth <= 4, width <= 4; integers and fractions of any length without exponent, strings and keys with every escape spelling, multi-byte UTF-8, bytes that are syntax elsewhere: # / @ | { } [ ] : , *; true / false / null) written as schema TEXT with (A) white-space layout: blanks, tabs, LF / CR / CRLF (one style or mixed) at every place the grammar allows white space, (B) the same plus user comments (# …, ### … ###) and notes (// text, /* text */), (C) a repeated key (same or different spelling of one decoded key), (D) 1-3 byte mutations; compared: real Example() bytes = compact rendering computed in Go = Lean Loader.exampleText (request extext), or the same scanner / loader error (code, position); nontrivial = the tree has at least one container")
+	rep := vh.NewReport(command, "random JSON trees (depth <= 4, width <= 4; integers and fractions of any length without exponent, strings and keys with every escape spelling, multi-byte UTF-8, bytes that are syntax elsewhere: # / @ | { } [ ] : , *; true / false / null) written as schema TEXT with (A) white-space layout: blanks, tabs, LF / CR / CRLF (one style or mixed) at every place the grammar allows white space, (B) the same plus user comments (# …, ### … ###) and notes (// text, /* text */), (C) a repeated key (same or different spelling of one decoded key), (D) 1-3 byte mutations; compared: real Example() bytes = compact rendering computed in Go = Lean Loader.exampleText (request extext), or the same scanner / loader error (code, position); nontrivial = the tree has at least one container; stream T (x/c15text/atree.go): annotated trees (generator of c13-tree: 0-3 literal rules per node from per-kind pools plus type any / mixed, const, nullable, optional, enum, or, allOf; notes; inline / multi-line; before / behind the comma; LF / CRLF; # comments) sent as AT.ATree S-expressions to the driver (atreeex): ATree.compact (Lean) = compact value (Go) always; lineOK && exClass && container root => model Loader.exampleTextR = EX compact; real Example() = model whenever it returns bytes or a scanner / loader error; real Check() ok => real Example() = EX compact, json.Valid, real Validate(Example()) == nil, model E2E.validateText(text, [], example) = ACC or UNSUP; real Check() error => Example() fails with the same code; nontrivial = in class, container root, at least one rule")
 	seed := vh.Seed()
 	total := vh.Pick(80000, 2000000)
 	const batch = 50000
@@ -524,5 +529,6 @@ func Run(args []string) {
 			}
 		}
 	}
+	runT(rep)
 	rep.Finish()
 }
